@@ -46,7 +46,10 @@ for pid in sorted(os.listdir(SRC)):
                 rc1, out1 = sh(f"/venv/bin/python {d}/demo.py", cwd=wt, env=env)
                 meta["demo_with_patch"] = {"rc": rc1, "tail": out1[-300:]}
                 envc = dict(os.environ, FASTAVRO_REPO=wt)
-                rcc, outc = sh(f"./check {pid} --tier quick", cwd=ROOT, env=envc)
+                alt = dict(x.split("=") for x in os.environ.get("ALT", "").split(",") if "=" in x)
+                chk = alt.get(sid, pid)
+                meta["checked_with"] = chk
+                rcc, outc = sh(f"./check {chk} --tier quick", cwd=ROOT, env=envc)
                 viol = [l for l in outc.splitlines() if l.startswith("VIOLATION")]
                 sig = [l.strip()[:300] for l in outc.splitlines() if l.startswith("  ") and " x" in l][:3]
                 meta["check_quick"] = {"rc": rcc, "violations": len(viol), "signatures": sig}
@@ -75,7 +78,7 @@ for pid in sorted(os.listdir(SRC)):
                 f"git worktree of /repo at {head}; git apply patch.diff",
                 "/verif/tools/baseline.py <worktree>  (540/540 stable-pass tests must pass)",
                 "PYTHONPATH=<worktree> /venv/bin/python demo.py  (exit 0 without the patch, exit 1 with it)",
-                f"FASTAVRO_REPO=<worktree> ./check {pid} --tier quick",
+                f"FASTAVRO_REPO=<worktree> ./check {meta.get('checked_with', pid)} --tier quick",
             ]
             json.dump(meta, open(os.path.join(out, "meta.json"), "w"), indent=1)
 print("\nSUMMARY")
